@@ -19,6 +19,8 @@ TIERS = {
     'thorough': {'workers': 16, 'cases': 8000, 'timeout': 3400, 'thread_cases': 1, 'random_runs': 90, 'pct_runs': 45,
                  'preempt_samples': 0, 'free_runs': 25, 'exhaustive': True},
 }
+# further workloads for the property's online monitor (vf/online.py): the repository's tests and other checks' generated cases
+ONLINE = {'which': ['scope'], 'foreign': ['C01', 'C04', 'C05', 'C07', 'C10', 'C12', 'C13', 'C17', 'C20'], 'n': {'quick': 40, 'thorough': 600}}
 REQUIRED_BUCKETS = ['entry:ident', 'entry:slash', 'entry:list', 'entry:none', 'entry:empty', 'entry:invalid-name', 'entry:invalid-type',
                     'entry:invalid-list', 'exit:return', 'exit:raise-Exception', 'exit:raise-BaseException', 'depth:4+',
                     'call:direct', 'call:scoped-get', 'call:scoped-ref', 'call:probe-raises-in-scoped', 'call:probe-raises-BaseException-in-scoped', 'entry:deferred', 'entry:decorator', 'threads:shared-scoped-callable', 'threads:scheduled',
